@@ -36,6 +36,8 @@ def _decl(L):
 def ex_teardown(c):
     L = c.L
     _decl(L)
+    if c.v.get("aid", FAIL) != FAIL:
+        L.Hendaccess(c.v["aid"])
     if c.h.get("F", FAIL) != FAIL:
         L.Hclose(c.h["F"])
     L.HXsetcreatedir(None)
@@ -134,6 +136,51 @@ def ex_overwrite(c, a):
         b.free()
     if L.Hendaccess(aid) == FAIL:
         r = FAIL
+    return {"ret": r}
+
+
+@op("ExtElem", "Attach")
+def ex_attach(c, a):
+    aid = c.L.Hstartaccess(c.h["F"], TAG, a["e"], DFACC_RDWR)
+    c.v["aid"] = aid
+    return {"ret": 0 if aid != FAIL else FAIL}
+
+
+@op("ExtElem", "HRead")
+def ex_hread(c, a):
+    L = c.L
+    aid = c.v["aid"]
+    ln = c_int32(-1)
+    L.Hinquire(aid, None, None, None, ctypes.byref(ln), None, None, None, None)
+    n = max(ln.value, 0)
+    if L.Hseek(aid, 0, 0) == FAIL:
+        return {"ret": FAIL}
+    b = CBuf(max(n, 1))
+    r = L.Hread(aid, n, ctypes.c_void_p(b.p))
+    o = {"ret": r}
+    if r != FAIL:
+        o["data"] = list(b.raw(r))
+    b.free()
+    return o
+
+
+@op("ExtElem", "HWrite")
+def ex_hwrite(c, a):
+    L = c.L
+    aid = c.v["aid"]
+    d = bytes(a["data"])
+    if L.Hseek(aid, a["pos"], 0) == FAIL:
+        return {"ret": FAIL}
+    b = CBuf(len(d), d)
+    r = L.Hwrite(aid, len(d), ctypes.c_void_p(b.p))
+    b.free()
+    return {"ret": r}
+
+
+@op("ExtElem", "Detach")
+def ex_detach(c, a):
+    r = c.L.Hendaccess(c.v["aid"])
+    c.v["aid"] = FAIL
     return {"ret": r}
 
 
